@@ -267,11 +267,15 @@ def decode_ctor(ctor):
     return out
 
 
-def fit_model(model, spec, data):
-    """Fit according to kind; vines take the truncation from the spec."""
+def fit_model(model, spec, data, poison=None):
+    """Fit according to kind; vines take the truncation from the spec.  Vine code reads
+    np.empty buffers, so it always runs under a simulator-chosen allocator content
+    (default: zeros) - never under whatever the real allocator happens to return."""
     kind = kind_of(spec['cls'])
     if kind == 'vine':
-        model.fit(data, truncated=spec.get('truncated', 3))
+        from copsim.seams import Poison
+        with Poison(poison or spec.get('poison', 'zero'), seed=spec.get('poison_seed', 0)):
+            model.fit(data, truncated=spec.get('truncated', 3))
     else:
         model.fit(data)
     return model
